@@ -190,6 +190,70 @@ pub open spec fn lex_from(s: Seq<char>, k: int) -> LexRes
 
 pub open spec fn ref_lex(s: Seq<char>) -> LexRes { lex_from(s, 0) }
 
+// ---------- token text and position (C09: parse errors quote the offending token exactly) ----------
+pub open spec fn stok_text(t: STok) -> Seq<char> {
+    match t {
+        STok::Underscore(_) => "_"@,
+        STok::Ident(n, _) => n,
+        STok::TerminalIdent(n, _) => "$"@ + n,
+        STok::OuterAttribute(a, _) => a,
+        STok::StartKw(_) => "start"@,
+        STok::StructKw(_) => "struct"@,
+        STok::EnumKw(_) => "enum"@,
+        STok::TerminalKw(_) => "terminal"@,
+        STok::Colon(_) => ":"@,
+        STok::DoubleColon(_) => "::"@,
+        STok::Comma(_) => ","@,
+        STok::LParen(_) => "("@,
+        STok::RParen(_) => ")"@,
+        STok::LCurly(_) => "{"@,
+        STok::RCurly(_) => "}"@,
+        STok::LAngle(_) => "<"@,
+        STok::RAngle(_) => ">"@,
+    }
+}
+
+/// byte offset of the first character of the token
+pub open spec fn stok_start(t: STok) -> int {
+    match t {
+        STok::Underscore(p) => p, STok::Ident(_, p) => p, STok::TerminalIdent(_, p) => p - 1, STok::OuterAttribute(_, p) => p,
+        STok::StartKw(p) => p, STok::StructKw(p) => p, STok::EnumKw(p) => p, STok::TerminalKw(p) => p, STok::Colon(p) => p,
+        STok::DoubleColon(p) => p, STok::Comma(p) => p, STok::LParen(p) => p, STok::RParen(p) => p, STok::LCurly(p) => p,
+        STok::RCurly(p) => p, STok::LAngle(p) => p, STok::RAngle(p) => p,
+    }
+}
+
+/// the token t occurs in s: its text is s[j..j+|text|) and its position is the byte offset of j
+pub open spec fn stok_in_src(s: Seq<char>, t: STok, j: int) -> bool {
+    &&& 0 <= j && j + stok_text(t).len() <= s.len()
+    &&& stok_start(t) == byte_off(s, j)
+    &&& s.subrange(j, j + stok_text(t).len()) == stok_text(t)
+}
+
+/// byte lengths of the fixed token texts (all ASCII)
+pub proof fn lemma_content_len_literals()
+    ensures
+        "_".spec_bytes().len() == byte_len("_"@) == 1, "$".spec_bytes().len() == byte_len("$"@) == 1,
+        "start".spec_bytes().len() == byte_len("start"@) == 5, "struct".spec_bytes().len() == byte_len("struct"@) == 6,
+        "enum".spec_bytes().len() == byte_len("enum"@) == 4, "terminal".spec_bytes().len() == byte_len("terminal"@) == 8,
+        ":".spec_bytes().len() == byte_len(":"@) == 1, "::".spec_bytes().len() == byte_len("::"@) == 2,
+        ",".spec_bytes().len() == byte_len(","@) == 1, "(".spec_bytes().len() == byte_len("("@) == 1,
+        ")".spec_bytes().len() == byte_len(")"@) == 1, "{".spec_bytes().len() == byte_len("{"@) == 1,
+        "}".spec_bytes().len() == byte_len("}"@) == 1, "<".spec_bytes().len() == byte_len("<"@) == 1,
+        ">".spec_bytes().len() == byte_len(">"@) == 1,
+{
+    reveal_strlit("_"); reveal_strlit("$"); reveal_strlit("start"); reveal_strlit("struct"); reveal_strlit("enum");
+    reveal_strlit("terminal"); reveal_strlit(":"); reveal_strlit("::"); reveal_strlit(","); reveal_strlit("("); reveal_strlit(")");
+    reveal_strlit("{"); reveal_strlit("}"); reveal_strlit("<"); reveal_strlit(">");
+    lemma_lit_len("_"); lemma_lit_len("$"); lemma_lit_len("start"); lemma_lit_len("struct"); lemma_lit_len("enum");
+    lemma_lit_len("terminal"); lemma_lit_len(":"); lemma_lit_len("::"); lemma_lit_len(","); lemma_lit_len("("); lemma_lit_len(")");
+    lemma_lit_len("{"); lemma_lit_len("}"); lemma_lit_len("<"); lemma_lit_len(">");
+    lemma_ascii_byte_len("_"@, 1); lemma_ascii_byte_len("$"@, 1); lemma_ascii_byte_len("start"@, 5); lemma_ascii_byte_len("struct"@, 6);
+    lemma_ascii_byte_len("enum"@, 4); lemma_ascii_byte_len("terminal"@, 8); lemma_ascii_byte_len(":"@, 1); lemma_ascii_byte_len("::"@, 2);
+    lemma_ascii_byte_len(","@, 1); lemma_ascii_byte_len("("@, 1); lemma_ascii_byte_len(")"@, 1); lemma_ascii_byte_len("{"@, 1);
+    lemma_ascii_byte_len("}"@, 1); lemma_ascii_byte_len("<"@, 1); lemma_ascii_byte_len(">"@, 1);
+}
+
 // ---------- scan lemmas ----------
 pub proof fn lemma_ident_end_bounds(s: Seq<char>, k: int)
     requires 0 <= k <= s.len()
